@@ -75,7 +75,10 @@ EXPLANATION = (
     'unless both branches issue the same collective sequence with the same '
     'root; no return under a divergent condition is followed, on the other '
     'branch, by a collective; loops containing collectives have rank-uniform '
-    'trip counts (uniformity taint from mpi.rank() and the rank-local '
+    'trip counts - the loop condition being the test of the `while` together '
+    'with the guard clauses `if not c: break` at the head of its body, and any '
+    'other `break` out of such a loop must sit under a rank-uniform condition '
+    '(uniformity taint from mpi.rank() and the rank-local '
     'parameters of a frozen table, cleared by allreduce/allgather/bcast '
     'results; a function with collectives that is not in the table makes the '
     'analysis incomplete - except private helpers: one that the front end '
@@ -99,7 +102,11 @@ EXPLANATION = (
     'local_index) pairs are produced and consumed in that order '
     '(convert_local_indices, randind and its rank table and broadcast draw, '
     'every distribute_frame call fed by a pair, the pairs built next to such a '
-    'call, ctr_ids_mpi, the local-centre filter of kmedoids); (D5) every '
+    'call, ctr_ids_mpi, the local-centre filter of kmedoids); every return of '
+    'randind reads the rank table - an arithmetic shortcut (g % size, g // size) '
+    'is accepted only where the path condition makes all per-rank counts equal; '
+    'a rank-local array is subscripted with the owner-local index of a pair only '
+    'under mpi.rank() == <owner of that pair>; (D5) every '
     'mpi.comm / mpi.mpi4py attribute reachable when size() == 1 exists on the '
     'serial fallback classes; (D6) the MPI cold-start branch does not use a '
     'value it has just tested to be None (known finding); (D7) striped '
@@ -555,6 +562,69 @@ def _ctrl_text(ctrl):
     return u(ctrl)
 
 
+def _strip_noise(stmts):
+    return [s for s in stmts if not isinstance(s, ast.Pass) and
+            not (isinstance(s, ast.Expr) and isinstance(s.value, ast.Constant))]
+
+
+def loop_continue_tests(loop):
+    """The conditions ALL of which hold whenever the body proper of a loop
+    runs, as [(test, polarity, owner statement)]: the test of a `while`
+    (unless it is a true constant) and the guard clauses at the head of the
+    body - `if c: break` (c false to go on), `if c: <rest> else: break`.
+    `while True: if not A: break; if not B: break; S` has the trip count of
+    `while A and B: S` (nothing is evaluated between the tests), so rules
+    that speak about "the loop condition" look at this list."""
+    out = []
+    if isinstance(loop, ast.While) and not (isinstance(loop.test, ast.Constant) and loop.test.value in (True, 1)):
+        out.append((loop.test, True, loop))
+
+    def only_break(arm):
+        arm = _strip_noise(arm)
+        return len(arm) == 1 and isinstance(arm[0], ast.Break)
+
+    def peel(stmts):
+        stmts = _strip_noise(stmts)
+        for k, st in enumerate(stmts):
+            if not isinstance(st, ast.If):
+                return
+            body, orelse = _strip_noise(st.body), _strip_noise(st.orelse)
+            if only_break(body) and not orelse:
+                out.append((st.test, False, st))
+                continue
+            if only_break(orelse) and not body:
+                out.append((st.test, True, st))
+                continue
+            if len(stmts) == k + 1:
+                # the rest of the body IS the other arm
+                if only_break(body) and orelse:
+                    out.append((st.test, False, st))
+                    peel(orelse)
+                elif only_break(orelse) and body:
+                    out.append((st.test, True, st))
+                    peel(body)
+            return
+    peel(loop.body)
+    return out
+
+
+def loop_condition(loop):
+    """one expression equivalent to loop_continue_tests (the iterable of a
+    `for` when it has no guard clauses)."""
+    parts = [t if pol else ast.UnaryOp(op=ast.Not(), operand=t) for t, pol, _ in loop_continue_tests(loop)]
+    if isinstance(loop, ast.For):
+        return loop.iter if not parts else None
+    if not parts:
+        return loop.test
+    e = parts[0] if len(parts) == 1 else ast.BoolOp(op=ast.And(), values=parts)
+    return ast.fix_missing_locations(ast.copy_location(e, loop))
+
+
+def _own_breaks(mod, loop):
+    """the `break` statements that leave `loop` (not an inner loop)."""
+    return [b for b in ast.walk(loop) if isinstance(b, ast.Break) and enclosing(mod, b, (ast.For, ast.While, ast.AsyncFor)) is loop]
+
+
 def d1_matching(ck, spmd):
     rule = 'C14.D1.collective-matching'
     n_sites = 0
@@ -563,6 +633,7 @@ def d1_matching(ck, spmd):
         n_sites += _d1_function(ck, spmd, rule, rel, q, locs, nu_of)
     ck.floor(rule, n_sites, 25, 'collective events (direct and through package functions)')
     _d1_completeness(ck, spmd, rule, nu_of)
+    return nu_of
 
 
 def _d1_function(ck, spmd, rule, rel, q, locs, nu_of):
@@ -657,12 +728,20 @@ def _d1_function(ck, spmd, rule, rel, q, locs, nu_of):
             ev = events(node.body)
             if not ev:
                 continue
-            ctrl = node.iter if isinstance(node, ast.For) else node.test
+            # the loop condition: the test of the `while` together with the guard
+            # clauses (`if not c: break`) at the head of the body
+            guards = loop_continue_tests(node)
+            ctrl = loop_condition(node)
+            if ctrl is None:        # a `for` with guard clauses: the iterable and the guards are separate conditions
+                ctrl = node.iter
             div = spmd.expr_nonuniform(mod, fn, ctrl, nun, cls)
             ck.check(not div, rule + '.loops', mod, node, q, '%s %s: collectives %s' % ('for' if isinstance(node, ast.For) else 'while', _ctrl_text(ctrl)[:80], ev[:4]),
                      'loop containing collectives has a rank-uniform trip count',
                      'the loop controlled by `%s` contains collectives %s but its trip count can differ between ranks: '
                      'some ranks leave the loop while others still wait in a collective' % (u(ctrl)[:80], ev[:3]))
+            # every other way out of the loop: a `break` under a rank-divergent condition
+            head = {id(o) for _, _, o in guards} if isinstance(node, ast.While) else set()
+            _d1_breaks(ck, spmd, rule + '.loops', mod, fn, q, cls, node, nun, seeds, ev, head)
     # (ii) early return under divergent condition before a later collective:
     # the ranks that do NOT return go on (through the other branch of the
     # divergent test) to a collective outside that if-statement
@@ -689,6 +768,28 @@ def _d1_function(ck, spmd, rule, rel, q, locs, nu_of):
                      'no collective follows this rank-divergent return',
                      'a rank can return here (under `%s`) while the others go on to the collective at L%s' % (u(a.test)[:60], later[0].lineno if later else '?'))
     return len(all_events)
+
+
+def _d1_breaks(ck, spmd, rule, mod, fn, q, cls, loop, nu, seeds, ev, head):
+    """A `break` out of a loop that contains collectives, taken under a
+    condition that differs between ranks, gives the ranks different trip
+    counts (the guard clauses at the head of the body are part of the loop
+    condition and decided there).  Three-valued on the definitions that
+    reach the test."""
+    fi = finfo(mod, fn)
+    for b in _own_breaks(mod, loop):
+        if b not in fi.cfg.dom:
+            continue
+        for a in fi.cfg.dom.get(b, ()):
+            if not isinstance(a, Assume) or id(a.owner) in head or a.owner is loop or not inside(mod, a.owner, loop):
+                continue
+            why = []
+            lv = _nonuniform_here(spmd, mod, fn, fi, cls, a.test, a.owner, nu, seeds, why=why)
+            v = 'match' if not lv else ('near', 1, None) if lv == 2 else ('far', 1, None)
+            ck.decide(v, rule, mod, b, q, 'break under `%s` in the loop with collectives %s' % (u(a.test)[:80], ev[:3]),
+                      'the loop is left under a rank-uniform condition',
+                      'the loop contains collectives %s and is left by `break` under the rank-divergent condition `%s` (%s): some ranks leave '
+                      'the loop while the others still wait in a collective' % (ev[:3], u(a.test)[:80], ' -> '.join(why[:4])))
 
 
 _GROWING = {'append', 'extend', 'insert', 'update', 'add', 'setdefault', 'fill', 'put', 'itemset', 'appendleft', 'extendleft'}
@@ -1793,23 +1894,123 @@ def _d4_randind(ck, rule, mod):
     F = 'randind'
     P = params(fr)[0]
     rets = returns_of(fr)
-    if len(rets) != 1:
-        ck.missing(rule, 'randind: exactly one return (found %d)' % len(rets))
+    if not rets:
+        ck.missing(rule, 'randind: no return')
         return
-    r = rets[0]
-    val = xn(fi, r.value, r)
-    vv = classify(val, ['(ra.where(_A == _G)[0][0], ra.where(_A == _G)[1][0])', '(ra.where(_G == _A)[0][0], ra.where(_G == _A)[1][0])'], set())
-    if vv[0] != 'match':
-        # near iff the value is built from ra.where components only (e.g. swapped)
-        rough = _classify(val, ['(ra.where(_A == _G)[_I][0], ra.where(_A == _G)[_J][0])'])
-        vv = ('near', 1, vv[2]) if rough[0] == 'match' else ('far', vv[1], vv[2])
-    ck.decide(vv, rule, mod, r, F, u(val)[:200], 'returns (row, column) = (owner_rank, local_index) of the drawn element in the rank-by-rank table',
-              'randind must return (owner_rank, local_index): row and column, in this order, of ra.where(<rank table> == <drawn global index>)')
-    if vv[0] != 'match':
+    forms = ['(ra.where(_A == _G)[0][0], ra.where(_A == _G)[1][0])', '(ra.where(_G == _A)[0][0], ra.where(_G == _A)[1][0])']
+    okmsg = 'returns (row, column) = (owner_rank, local_index) of the drawn element in the rank-by-rank table'
+    badmsg = ('randind must return (owner_rank, local_index): row and column, in this order, of ra.where(<rank table> == <drawn global index>)')
+    # every return is decided: the ones that read the rank table, and any other way out (a shortcut)
+    table, others = [], []
+    for r in rets:
+        val = xn(fi, r.value, r) if r.value is not None else ast.Constant(value=None)
+        vv = classify(val, forms, set())
+        (table if vv[0] == 'match' else others).append((r, val, vv))
+    if not table:
+        for r, val, vv in others:
+            # near iff the value is built from ra.where components only (e.g. swapped)
+            rough = _classify(val, ['(ra.where(_A == _G)[_I][0], ra.where(_A == _G)[_J][0])'])
+            vv = ('near', 1, vv[2]) if rough[0] == 'match' else ('far', vv[1], vv[2])
+            ck.decide(vv, rule, mod, r, F, u(val)[:200], okmsg, badmsg)
         return
+    if len({(u(vv[1]['_A']), u(vv[1]['_G'])) for _, _, vv in table}) != 1:
+        ck.missing(rule, 'randind: %d returns read different rank tables' % len(table))
+        return
+    for r, val, vv in table:
+        ck.decide(vv, rule, mod, r, F, u(val)[:200], okmsg, badmsg)
+    r, val, vv = table[0]
+    facts = {}
+    _d4_randind_table(ck, rule, mod, fr, fi, F, P, r, vv, facts)
+    for r2, val2, vv2 in others:
+        _d4_randind_shortcut(ck, rule + '.randind-shortcut', mod, fr, fi, F, r, r2, val2, facts, badmsg)
+
+
+def _spread_range(fi, c, N, owner):
+    """interval the atom asserts for max(N) - min(N) (the spread of the
+    per-rank counts), or None."""
+    for a in (C('%s.max() - %s.min()' % (N, N)), C('np.ptp(%s)' % N), C('%s.ptp()' % N)):
+        rg = int_range(fi, c, a, owner)
+        if rg is not None:
+            return rg
+    if isinstance(c, Cmp) and c.rel in _SWAP:
+        # max(N) REL min(N)
+        rel = atom_rel(fi, c, C('%s.max()' % N), C('%s.min()' % N), owner)
+        if rel is not None:
+            return {'==': (0, 0), '<=': (None, 0), '<': (None, -1), '!=': ('ne', 0), '>': (1, None), '>=': (0, None)}[rel]
+    return None
+
+
+def _d4_randind_shortcut(ck, rule, mod, fr, fi, F, main, r, val, facts, badmsg):
+    """A return of randind that does not read the rank table.  The element
+    with global position g of a striped array lives on rank g % size at local
+    position g // size exactly when the stripes are PACKED (rank r holds
+    len(range(r, total, size)) elements); for a symmetric condition on the
+    per-rank counts that is guaranteed only when all counts are equal.  So:
+    the arithmetic pair under a path condition that bounds max(counts) -
+    min(counts) by 0 is accepted; the same pair on a path that admits a
+    spread of 1 (or any spread) names, for counts [1, 2] on two ranks and the
+    drawn position 2, element 1 of rank 0, which does not exist - violation;
+    any other pure function of the drawn index and the counts in this role
+    likewise; a guard this rule cannot interpret, or a value computed from
+    other operands: incomplete."""
+    G, N = facts.get('G'), facts.get('N')
+    construct = 'return %s' % u(val)[:160]
+    if G is None or N is None:
+        ck.missing(rule, 'randind: a second way out (%s at %s) cannot be decided because the rank table was not understood' % (construct, mod.loc(r)))
+        return
+    rough = _classify(val, ['(ra.where(_A == _G)[_I][0], ra.where(_A == _G)[_J][0])'])
+    if rough[0] == 'match':
+        ck.bad(rule, mod, r, F, construct, badmsg)
+        return
+    scope = {G, N}
+    if not closed_over(val, scope):
+        ck.missing(rule, 'construct not recognised at %s: %s (a return of randind that does not read the rank table)' % (mod.loc(r), construct))
+        return
+    # what is known on this path and not on the path to the table lookup
+    shared_ = {id(a) for a in fi.cfg.dom.get(main, ())}
+    ranges, opaque = [], []
+    for a in fi.cfg.dom.get(r, ()):
+        if not isinstance(a, Assume) or id(a) in shared_:
+            continue
+        test = expand(fi, a.test, a.owner)
+        cj = conjuncts(test, a.polarity)
+        if cj is None:
+            if N in names_loaded(test):
+                opaque.append(u(a.test))
+            continue
+        for c in cj:
+            rg = _spread_range(fi, c, N, a.owner)
+            if rg is not None:
+                ranges.append((rg, c))
+            elif N in (names_loaded(c.lhs) | names_loaded(c.rhs) if isinstance(c, Cmp) else names_loaded(c[1])):
+                opaque.append(repr(c) if isinstance(c, Cmp) else u(c[1]))
+    arith = ['(%s %% mpi.size(), %s // mpi.size())' % (G, G), '(%s %% mpi.size(), int(%s / mpi.size()))' % (G, G),
+             '(%s %% mpi.size(), int(%s // mpi.size()))' % (G, G), 'divmod(%s, mpi.size())[::-1]' % G]
+    va = classify(val, arith, scope)
+    equal_counts = any(not _permits(rg, 1) and _permits(rg, 0) for rg, _ in ranges)
+    if va[0] == 'match' and equal_counts:
+        ck.ok(rule, mod, r, construct, 'arithmetic shortcut on a path where all per-rank counts are equal (equal stripes are packed)')
+        return
+    if opaque:
+        ck.missing(rule, 'construct not recognised at %s: %s under the condition `%s` (is it limited to packed stripes?)' % (mod.loc(r), construct, ' and '.join(opaque)[:120]))
+        return
+    when = ' and '.join(repr(c) for _, c in ranges) or 'no condition on the per-rank counts'
+    ck.bad(rule, mod, r, F, construct,
+           'randind returns `%s` without looking the drawn position up in the rank table [path condition: %s]. Position g of a striped array is '
+           '(g %% size, g // size) only for PACKED stripes (rank r holds len(range(r, total, size)) elements); a bound on the spread of the counts '
+           'that admits 1 does not give that: counts [1, 2] on two ranks, drawn position 2 -> (0, 1), but rank 0 holds one element - the pair points '
+           'past the end of the owner\'s array and element 1 of rank 1 can never be drawn (choice neither valid nor uniform)' % (u(val)[:100], when))
+
+
+def _d4_randind_table(ck, rule, mod, fr, fi, F, P, r, vv, facts):
+    """the rank table, the per-rank counts and the drawn index behind the
+    return `r` that reads the table; facts['G'] / facts['N'] receive the
+    names of the drawn index and of the counts once they are identified."""
     A, G = vv[1]['_A'], vv[1]['_G']
     if isinstance(A, ast.Name) and not isinstance(G, ast.Name):
         A, G = G, A
+    if isinstance(G, ast.Name):
+        facts['G'] = G.id
     rr = rule + '.randind-table'
     v2 = _classify(A, ['ra.RaggedArray(np.concatenate([np.arange(_T)[_R::mpi.size()] for _R in range(mpi.size())]), lengths=_N, error_checking=False)',
                        'ra.RaggedArray(np.concatenate([np.arange(_T)[_R::mpi.size()] for _R in range(mpi.size())]), lengths=_N)',
@@ -1821,6 +2022,7 @@ def _d4_randind(ck, rule, mod):
                   'row r lists the global positions r, r+size, ...')
         return
     N = v2[1]['_N'].id
+    facts['N'] = N
     ck.check(u(v2[1]['_T']) in ('sum(%s)' % N, '%s.sum()' % N), rr, mod, r, F, u(A)[:200], 'row r of the table lists the global positions r, r+size, ... below the total count',
              'the positions striped over the ranks must be arange(sum(%s)), found arange(%s)' % (N, u(v2[1]['_T'])))
     # per-rank counts: all-gathered local lengths
@@ -1835,6 +2037,7 @@ def _d4_randind(ck, rule, mod):
     if not isinstance(G, ast.Name):
         ck.missing(rr, 'randind: drawn index is not a name: %s' % u(G))
         return
+    facts['G'] = G.id
     gd = fi.rd.defs_at(r, G.id)
     site = next(iter(gd)) if len(gd) == 1 else None
     c = fi.def_value(site, G.id) if site not in (None, 'PARAM', 'UNBOUND') else None
@@ -2065,6 +2268,134 @@ def _d4_local_centres(ck, rule):
                  'local centre indices must be the SECOND component of the pairs whose FIRST component equals mpi.rank(); found filter on component %d, value component %d' % (sel, got))
     if not n:
         ck.missing(rule, 'kmedoids: selection of the centre pairs owned by this rank (`... if pair[0] == mpi.rank()`) not found')
+
+
+def _on_owner(fi, mod, node, owner):
+    """Is the expression `node` evaluated only on the rank `owner` (canonical
+    text of the owner component)?  True: the path condition of its statement,
+    the arm of a conditional expression, an earlier operand of an `and` or
+    the filter of a comprehension asserts mpi.rank() == owner; False: no test
+    on the rank at all; None: some test on the rank this rule cannot relate to
+    the owner."""
+    here = fi.stmt(node)
+    other = False
+
+    def atoms_say(cj, at):
+        nonlocal other
+        for c in (cj or []):
+            if isinstance(c, Cmp):
+                if atom_rel(fi, c, 'mpi.rank()', owner, at) == '==':
+                    return True
+                if 'mpi.rank()' in (xt(fi, c.lhs, at), xt(fi, c.rhs, at)):
+                    other = True
+            elif 'mpi.rank' in u(c[1]):
+                other = True
+        return False
+    for a in fi.cfg.dom.get(here, ()):
+        if isinstance(a, Assume):
+            test = expand(fi, a.test, a.owner)
+            cj = conjuncts(test, a.polarity)
+            if cj is None:
+                other = other or 'mpi.rank' in u(test)
+            elif atoms_say(cj, a.owner):
+                return True
+    child, p = node, mod.parent.get(node)
+    while p is not None and p is not here:
+        if isinstance(p, ast.IfExp) and child is not p.test:
+            cj = conjuncts(p.test, child is p.body)
+            if cj is None:
+                other = other or 'mpi.rank' in u(p.test)
+            elif atoms_say(cj, here):
+                return True
+        if isinstance(p, ast.BoolOp) and isinstance(p.op, ast.And) and child in p.values:
+            for prev in p.values[:p.values.index(child)]:
+                if atoms_say(conjuncts(prev, True), here):
+                    return True
+        if isinstance(p, (ast.ListComp, ast.SetComp, ast.GeneratorExp, ast.DictComp)) and not any(child is g for g in p.generators):
+            for g in p.generators:
+                for t in g.ifs:
+                    if atoms_say(conjuncts(t, True), here):
+                        return True
+        child, p = p, mod.parent.get(p)
+    return None if other else False
+
+
+def _owner_pairs(fi, mod, fn):
+    """The (owner rank, owner-local index) pairs a function holds, as
+    [(owner name, index name, valid(node))]: the two results of a randind
+    call, and the two names a pair is unpacked into when the first one is
+    used as an owner (compared with mpi.rank(), root of a collective,
+    owner_rank of distribute_frame)."""
+    out = []
+    for st in walk_local(fn):
+        if isinstance(st, ast.Assign) and len(st.targets) == 1 and isinstance(st.targets[0], (ast.Tuple, ast.List)) and len(st.targets[0].elts) == 2 and \
+                all(isinstance(x, ast.Name) for x in st.targets[0].elts) and isinstance(st.value, ast.Call) and (call_name(st.value) or '').split('.')[-1] == 'randind':
+            o, k = (x.id for x in st.targets[0].elts)
+
+            def valid(node, _st=st, _o=o, _k=k):
+                at = fi.stmt(node)
+                return at is not None and fi.rd.defs_at(at, _k) == {_st} and fi.rd.defs_at(at, _o) == {_st}
+            out.append((o, k, valid, 'the result of %s' % u(st.value.func)))
+    owner_uses = set()
+    for c in walk_local(fn):
+        if isinstance(c, ast.Call):
+            roots = [_root_of(c)] if collective_name(c) else ([arg(c, 2, 'owner_rank')] if (call_name(c) or '').split('.')[-1] == 'distribute_frame' else [])
+            owner_uses |= {r.id for r in roots if isinstance(r, ast.Name)}
+        if isinstance(c, ast.Compare) and len(c.ops) == 1 and isinstance(c.ops[0], (ast.Eq, ast.NotEq)):
+            l, r = c.left, c.comparators[0]
+            for x, y in ((l, r), (r, l)):
+                if isinstance(x, ast.Name) and u(y) == 'mpi.rank()':
+                    owner_uses.add(x.id)
+    for scope, (a, b), it in pair_binders(mod, fn):
+        if a in owner_uses:
+            out.append((a, b, (lambda node, _sc=scope: inside(mod, node, _sc)), 'a pair of %s' % u(it)[:40]))
+    return out
+
+
+def d4_owner_local_index(ck, nu_of):
+    """The second component of an (owner_rank, local_index) pair is a position
+    in the OWNER's rank-local array.  Another rank's array is in general
+    shorter (or empty): subscripting a rank-local array with that index
+    anywhere but on the owner raises IndexError there - before the collective
+    the other ranks are already waiting in.  Every such subscript must be
+    evaluated under mpi.rank() == <owner component of the same pair>."""
+    rule = 'C14.D4.pair-orientation.owner-local-index'
+    n = 0
+    for (rel, q), (nu, cls) in sorted(nu_of.items()):
+        mod = ck.repo.mod(rel)
+        fn = mod.functions.get(q)
+        if fn is None:
+            continue
+        fi = finfo(mod, fn)
+        pairs = _owner_pairs(fi, mod, fn)
+        if not pairs:
+            continue
+        for sub in walk_local(fn):
+            if not (isinstance(sub, ast.Subscript) and isinstance(sub.ctx, ast.Load) and isinstance(sub.value, ast.Name) and sub.value.id in nu):
+                continue
+            idx = sub.slice.elts[0] if isinstance(sub.slice, ast.Tuple) and sub.slice.elts else sub.slice
+            if not isinstance(idx, ast.Name) or _in_message(mod, sub):
+                continue
+            for o, k, valid, src in pairs:
+                if idx.id != k or not valid(sub):
+                    continue
+                n += 1
+                ck.analysed(mod, fn)
+                Y = sub.value.id
+                where = _on_owner(fi, mod, sub, o)
+                construct = 'rank-local `%s` subscripted with the owner-local index of (%s, %s)' % (Y, o, k)
+                if where is True:
+                    ck.ok(rule, mod, sub, construct, 'evaluated only on the owner (mpi.rank() == %s)' % o)
+                elif where is None:
+                    ck.missing(rule, 'construct not recognised at %s: %s - the rank test around it is not understood' % (mod.loc(sub), construct))
+                else:
+                    ck.bad(rule, mod, sub, q, construct,
+                           '`%s` is a position in the array of rank `%s` (%s), but `%s` is evaluated by EVERY rank on its own rank-local `%s` (no '
+                           '`mpi.rank() == %s` on the path): a rank that holds fewer than %s + 1 elements raises IndexError before it reaches the '
+                           'next collective, and the other ranks wait there forever; a value passed to bcast by a non-root rank is ignored, but it is '
+                           'still evaluated' % (k, o, src, u(sub), Y, o, k))
+                break
+    ck.floor(rule, n, 1, 'subscripts of a rank-local array with the owner-local index of an (owner, index) pair')
 
 
 def d5_fallback(ck):
@@ -2328,19 +2659,23 @@ def d8_reductions(ck):
     fc = finfo(kc, f)
     ps = params(f)
     cut = 'dist_cutoff' if 'dist_cutoff' in ps else (ps[3] if len(ps) > 3 else None)
+    # the loop condition is located by role: an atom `<cutoff> < <radius>` among the
+    # conditions under which the loop goes on (its test and the guard clauses
+    # `if not c: break` at the head of its body)
     loops = []
     for l in walk_local(f):
         if isinstance(l, ast.While):
-            for c in (conjuncts(l.test, True) or []):
-                if isinstance(c, Cmp) and c.as_less() is not None:
-                    small, strict, big = c.as_less()
-                    if u(small) == cut and isinstance(big, ast.Name):
-                        loops.append((l, big.id))
+            for test, pol, owner in loop_continue_tests(l):
+                for c in (conjuncts(test, pol) or []):
+                    if isinstance(c, Cmp) and c.as_less() is not None:
+                        small, strict, big = c.as_less()
+                        if u(small) == cut:
+                            loops.append((l, big, owner))
     rs = rule + '.stop-test'
     if len(loops) != 1:
         ck.missing(rs, 'kcenters: the loop `while ... <radius> > %s` (found %d)' % (cut, len(loops)))
         return
-    loop, M = loops[0]
+    loop, radius, use = loops[0]
     # the distance array handed to / returned by the iteration inside the loop
     D = None
     for s in walk_local(loop):
@@ -2348,12 +2683,19 @@ def d8_reductions(ck):
                 isinstance(s.targets[0].elts[1], ast.Name):
             D = s.targets[0].elts[1].id
     D = D or 'distances'
+    if isinstance(radius, ast.Name):
+        M = radius.id
+        sites = sorted(fc.rd.defs_at(use, M), key=lambda s: getattr(s, 'lineno', 0))
+    else:
+        # the radius is computed in the condition itself: one evaluation site
+        M = u(radius)
+        sites = [use]
     nd = 0
-    for site in sorted(fc.rd.defs_at(loop, M), key=lambda s: getattr(s, 'lineno', 0)):
+    for site in sites:
         if site in ('PARAM', 'UNBOUND'):
             ck.missing(rs, 'kcenters: `%s` may be %s at the loop test' % (M, site))
             continue
-        v = fc.def_value(site, M)
+        v = fc.def_value(site, M) if isinstance(radius, ast.Name) else radius
         if v is None:
             ck.missing(rs, 'kcenters: definition of `%s` not understood: %s' % (M, u(site)[:80]))
             continue
@@ -2375,7 +2717,7 @@ def d8_reductions(ck):
         vv = classify(arm, ['mpi.ops.striped_array_max(%s)' % D], {D})
         ck.decide(vv, rs, kc, site, 'kcenters', u(site)[:200], 'the stopping radius is the GLOBAL maximum in MPI mode (same on every rank)',
                   'in MPI mode maxdist must be the all-reduced maximum mpi.ops.striped_array_max(%s) on every evaluation' % D)
-    ck.floor(rs, nd, 2, 'definitions of the stopping radius reaching the loop test of kcenters')
+    ck.floor(rs, nd, 2 if isinstance(radius, ast.Name) else 1, 'definitions of the stopping radius reaching the loop test of kcenters')
 
 
 # ---------------------------------------------------------------------------
@@ -2648,7 +2990,9 @@ def d13_per_file_options(ck):
         f2i = finfo(m2, f2)
         per_file = []
         for cmp_ in [x for x in walk_local(f2) if isinstance(x, ast.Compare) and len(x.ops) == 1 and isinstance(x.ops[0], (ast.Eq, ast.NotEq))]:
-            sides = [cmp_.left, cmp_.comparators[0]]
+            # the two sides after expansion of temporaries (`n_files = len(filenames)` hoisted, a count passed to an inlined helper)
+            cst = f2i.stmt(cmp_)
+            sides = [xn(f2i, sd, cst) if cst is not None else sd for sd in (cmp_.left, cmp_.comparators[0])]
             lens = [s.args[0].id for s in sides if isinstance(s, ast.Call) and call_name(s) == 'len' and len(s.args) == 1 and isinstance(s.args[0], ast.Name)]
             if len(lens) == 2 and set(lens) & set(striped):
                 per_file += [p for p in lens if p not in striped and p in ps2 and p not in per_file]
@@ -2754,10 +3098,11 @@ def d10_every_rank(ck):
 def check(ck):
     res, ea = shared(ck.repo)
     spmd = SPMD(ck.repo, res, None)
-    d1_matching(ck, spmd)
+    nu_of = d1_matching(ck, spmd)
     d2_roots(ck)
     d3_striping(ck)
     d4_pairs(ck)
+    d4_owner_local_index(ck, nu_of)
     d5_fallback(ck)
     d6_nullness(ck)
     d_striped(ck)
